@@ -459,7 +459,8 @@ impl<'a> Evaluator<'a> {
                 syn::Stmt::Expr(e, semi) => {
                     let v = self.eval(e, env)?;
                     if let Val::Ctor(n, p, _) = &v {
-                        if n == "$return" {
+                        // early exits leave the block (and are consumed by the enclosing fn / loop)
+                        if n == "$return" || n == "$break" || n == "$continue" {
                             return Ok(Val::Ctor(n.clone(), p.clone(), BTreeMap::new()));
                         }
                     }
@@ -1327,6 +1328,56 @@ impl<'a> Evaluator<'a> {
                     "unwrap_or_else" if is_some => Ok(inner.unwrap()),
                     "unwrap_or_else" if is_none && mc.args.len() == 1 => self.apply_closure_mut(&mc.args[0], &[], env),
                     "unwrap_or_default" if is_some => Ok(inner.unwrap()),
+                    "transpose" if is_none => Ok(Val::Ctor("Ok".into(), vec![Val::none()], BTreeMap::new())),
+                    "transpose" if is_some => match inner.clone().unwrap() {
+                        Val::Ctor(n, p, _) if n == "Ok" => Ok(Val::Ctor("Ok".into(), vec![Val::some(p.into_iter().next().unwrap_or(Val::Unit))], BTreeMap::new())),
+                        Val::Ctor(n, p, f) if n == "Err" => Ok(Val::Ctor(n, p, f)),
+                        o => Err(format!("transpose on Some({})", o.show())),
+                    },
+                    "or_else" if is_some => Ok(recv.clone()),
+                    "or_else" if is_none && mc.args.len() == 1 => self.apply_closure_mut(&mc.args[0], &[], env),
+                    "ok_or" | "ok_or_else" if is_some => Ok(Val::Ctor("Ok".into(), vec![inner.unwrap()], BTreeMap::new())),
+                    "ok_or" if is_none && mc.args.len() == 1 => Ok(Val::Ctor("Err".into(), vec![self.eval(&mc.args[0], env).unwrap_or(Val::Opaque("error".into()))], BTreeMap::new())),
+                    "ok_or_else" if is_none && mc.args.len() == 1 => Ok(Val::Ctor("Err".into(), vec![self.apply_closure_mut(&mc.args[0], &[], env).unwrap_or(Val::Opaque("error".into()))], BTreeMap::new())),
+                    "zip" if (is_some || is_none) && mc.args.len() == 1 => {
+                        let other = self.eval(&mc.args[0], env)?;
+                        match (&inner, &other) {
+                            (Some(a), Val::Ctor(n, p, _)) if n == "Some" => Ok(Val::some(Val::Tuple(vec![a.clone(), p.first().cloned().unwrap_or(Val::Unit)]))),
+                            (None, Val::Ctor(n, _, _)) | (Some(_), Val::Ctor(n, _, _)) if n == "None" || n == "Some" => Ok(Val::none()),
+                            (_, o) => Err(format!("zip with {}", o.show())),
+                        }
+                    }
+                    "filter" if is_none => Ok(Val::none()),
+                    "filter" if is_some && mc.args.len() == 1 => match self.apply_closure_mut(&mc.args[0], &[inner.clone().unwrap()], env)? {
+                        Val::Bool(true) => Ok(recv.clone()),
+                        Val::Bool(false) => Ok(Val::none()),
+                        o => Err(format!("filter closure returned {}", o.show())),
+                    },
+                    // Result combinators
+                    "map" | "and_then" | "map_err" | "or_else" | "is_ok" | "is_err" | "err" | "unwrap_or" | "unwrap_or_else" | "is_ok_and"
+                        if matches!(&recv, Val::Ctor(n, p, _) if (n == "Ok" || n == "Err") && p.len() <= 1) =>
+                    {
+                        let Val::Ctor(tag, p, _) = recv.clone() else { unreachable!() };
+                        let is_ok = tag == "Ok";
+                        let payload = p.into_iter().next().unwrap_or(Val::Unit);
+                        let wrap = |t: &str, v: Val| Val::Ctor(t.into(), vec![v], BTreeMap::new());
+                        match (name.as_str(), is_ok) {
+                            ("is_ok", _) => Ok(Val::Bool(is_ok)),
+                            ("is_err", _) => Ok(Val::Bool(!is_ok)),
+                            ("err", _) => Ok(if is_ok { Val::none() } else { Val::some(payload) }),
+                            ("map", true) => Ok(wrap("Ok", self.apply_closure_mut(&mc.args[0], &[payload], env)?)),
+                            ("and_then", true) | ("is_ok_and", true) => self.apply_closure_mut(&mc.args[0], &[payload], env),
+                            ("is_ok_and", false) => Ok(Val::Bool(false)),
+                            ("map", false) | ("and_then", false) => Ok(recv.clone()),
+                            ("map_err", false) => Ok(wrap("Err", self.apply_closure_mut(&mc.args[0], &[payload], env).unwrap_or(Val::Opaque("error".into())))),
+                            ("or_else", false) => self.apply_closure_mut(&mc.args[0], &[payload], env),
+                            ("map_err", true) | ("or_else", true) => Ok(recv.clone()),
+                            ("unwrap_or", true) | ("unwrap_or_else", true) => Ok(payload),
+                            ("unwrap_or", false) => self.eval(&mc.args[0], env),
+                            ("unwrap_or_else", false) => self.apply_closure_mut(&mc.args[0], &[payload], env),
+                            _ => Err(format!(".{}() on {}", name, recv.show())),
+                        }
+                    }
                     "ok" if matches!(&recv, Val::Ctor(n, ..) if n == "Ok" || n == "Err") => match recv {
                         Val::Ctor(n, p, _) if n == "Ok" => Ok(Val::some(p.into_iter().next().unwrap_or(Val::Unit))),
                         _ => Ok(Val::none()),
